@@ -65,6 +65,7 @@ def Cst.lexM : Cst → List Lex
   | .app f cs _ a => f.lexM ++ ncm cs ++ a.lexM
   | .kw w c1 _ h c2 _ c3 _ b => .tok (kwText w) :: ncm c1 ++ h.lexM ++ ncm c2 ++ .tok [';'] :: ncm c3 ++ b.lexM
   | .sel e c1 _ _ attrs => e.lexM ++ ncm c1 ++ attrLex attrs
+  | .selOr e c1 _ _ attrs c2 _ _ d => e.lexM ++ ncm c1 ++ attrLex attrs ++ ncm c2 ++ .tok ['o', 'r'] :: d.lexM
 def Items.lexM : Items → List Lex
   | .nil => []
   | .cmt _ t rest => normCmt t :: rest.lexM
@@ -219,6 +220,7 @@ theorem ok_setBefore {e : Expr} (h : e.ok) {b : List Trivia} (hb : TrivOk b) : (
   | wth e bd c g s b' a => exact ⟨h.1, h.2.1, h.2.2.1, h.2.2.2.1, hb, h.2.2.2.2.2⟩
   | asrt c bd x y b' a => exact ⟨h.1, h.2.1, h.2.2.1, h.2.2.2.1, hb, h.2.2.2.2.2⟩
   | sel e ats g ab b' a => exact ⟨h.1, h.2.1, h.2.2.1, h.2.2.2.1, hb, h.2.2.2.2.2⟩
+  | selOr e ats g ab d dg db b' a => exact ⟨h.1, h.2.1, h.2.2.1, h.2.2.2.1, h.2.2.2.2.1, h.2.2.2.2.2.1, hb, h.2.2.2.2.2.2.2⟩
 
 theorem ok_setAfter {e : Expr} (h : e.ok) {a : List Trivia} (ha : TrivOk a) : (e.setAfter a).ok := by
   cases e with
@@ -231,6 +233,7 @@ theorem ok_setAfter {e : Expr} (h : e.ok) {a : List Trivia} (ha : TrivOk a) : (e
   | wth e bd c g s b a' => exact ⟨h.1, h.2.1, h.2.2.1, h.2.2.2.1, h.2.2.2.2.1, ha⟩
   | asrt c bd x y b a' => exact ⟨h.1, h.2.1, h.2.2.1, h.2.2.2.1, h.2.2.2.2.1, ha⟩
   | sel e ats g ab b a' => exact ⟨h.1, h.2.1, h.2.2.1, h.2.2.2.1, h.2.2.2.2.1, ha⟩
+  | selOr e ats g ab d dg db b a' => exact ⟨h.1, h.2.1, h.2.2.1, h.2.2.2.1, h.2.2.2.2.1, h.2.2.2.2.2.1, h.2.2.2.2.2.2.1, ha⟩
 
 theorem ok_addAfter {e : Expr} (h : e.ok) {a : List Trivia} (ha : TrivOk a) : (e.addAfter a).ok :=
   ok_setAfter h (trivOk_append (ok_after h) ha)
@@ -257,6 +260,7 @@ theorem lexOut_setBefore (e : Expr) (hb : e.before = []) (b : List Trivia) (na :
   | wth e bd c g s b' a => simp only [Expr.before] at hb; subst hb; simp [Expr.setBefore, Expr.lexOut]
   | asrt c bd x y b' a => simp only [Expr.before] at hb; subst hb; simp [Expr.setBefore, Expr.lexOut]
   | sel e ats g ab b' a => simp only [Expr.before] at hb; subst hb; simp [Expr.setBefore, Expr.lexOut]
+  | selOr e ats g ab d dg db b' a => simp only [Expr.before] at hb; subst hb; simp [Expr.setBefore, Expr.lexOut]
 
 theorem modifyLast_isEmpty' {α : Type} (f : α → α) : ∀ (l : List α), (modifyLast f l).isEmpty = l.isEmpty
   | [] => rfl
@@ -302,6 +306,7 @@ theorem lexOut_addAfter (e : Expr) (hna : e.isAsrtE = false) (ts : List Trivia) 
   cases e with
   | wth e bd c g s b a => simp [Expr.addAfter, Expr.setAfter, Expr.after, Expr.lexOut]
   | sel e ats g ab b a => simp [Expr.addAfter, Expr.setAfter, Expr.after, Expr.lexOut]
+  | selOr e ats g ab d dg db b a => simp [Expr.addAfter, Expr.setAfter, Expr.after, Expr.lexOut]
   | asrt c bd x y b a => cases hna
   | leaf k t b a => simp [Expr.addAfter, Expr.setAfter, Expr.after, Expr.lexOut]
   | list v m inn b a => simp [Expr.addAfter, Expr.setAfter, Expr.after, Expr.lexOut]
@@ -321,6 +326,7 @@ theorem lexOut_addAfter_true (e : Expr) (ts : List Trivia) : (e.addAfter ts).lex
   | wth e bd c g s b a => simp [Expr.addAfter, Expr.setAfter, Expr.after, Expr.lexOut]
   | asrt c bd x y b a => simp [Expr.addAfter, Expr.setAfter, Expr.after, Expr.lexOut]
   | sel e ats g ab b a => simp [Expr.addAfter, Expr.setAfter, Expr.after, Expr.lexOut]
+  | selOr e ats g ab d dg db b a => simp [Expr.addAfter, Expr.setAfter, Expr.after, Expr.lexOut]
 
 theorem lexOut_true_of_after_nil (e : Expr) (h : e.after = []) : e.lexOut true = e.lexOut false := by
   cases e with
@@ -333,6 +339,7 @@ theorem lexOut_true_of_after_nil (e : Expr) (h : e.after = []) : e.lexOut true =
   | wth e bd c g s b a => simp only [Expr.after] at h; subst h; simp [Expr.lexOut]
   | asrt c bd x y b a => simp only [Expr.after] at h; subst h; simp [Expr.lexOut]
   | sel e ats g ab b a => simp only [Expr.after] at h; subst h; simp [Expr.lexOut]
+  | selOr e ats g ab d dg db b a => simp only [Expr.after] at h; subst h; simp [Expr.lexOut]
 
 theorem modifyLast_isEmpty {α : Type} (f : α → α) : ∀ (l : List α), (modifyLast f l).isEmpty = l.isEmpty
   | [] => rfl
@@ -379,6 +386,7 @@ theorem lexOut_addAfter_proj (strict : Bool) (e : Expr) (ts : List Trivia)
     | app => cases hA
     | wth => cases hA
     | sel => cases hA
+    | selOr => cases hA
 
 theorem modifyLast_addAfter (strict : Bool) : ∀ (items : List Expr) (ts : List Trivia), items ≠ [] →
     (strict = true → lastAsrt items = true → cm ts = []) →
@@ -1006,6 +1014,30 @@ theorem cst_parse_spec (strict : Bool) : (c : Cst) → c.wf = true → (strict =
       ⟨heok, hne, hsol, by simp [collectTrivia, collectGo], trivOk_nil, trivOk_nil⟩, rfl, rfl, ?_, rfl⟩
     simp only [Expr.lexOut, Cst.lexM, cm_nil, List.nil_append, List.append_nil, if_false, Bool.false_eq_true, ncm, List.map_nil]
     simp only [proj_append, hel]
+  | .selOr e c1 g1 gd attrs c2 g2 g3 d, hwf, hord => by
+    simp only [Cst.wf, Bool.and_eq_true, List.isEmpty_iff, Bool.not_eq_true', List.isEmpty_eq_false_iff] at hwf
+    obtain ⟨⟨⟨⟨⟨⟨⟨⟨⟨hew, hc1⟩, _⟩, _⟩, hne⟩, hall⟩, hc2⟩, _⟩, _⟩, hdw⟩ := hwf
+    subst hc1; subst hc2
+    have hord' : strict = true → e.orderOk = true ∧ d.orderOk = true := by
+      intro hs
+      have := hord hs
+      simpa [Cst.orderOk] using this
+    obtain ⟨ee, hpe, heok, _, _, hel, _⟩ := cst_parse_spec strict e hew (fun hs => (hord' hs).1)
+    obtain ⟨de, hpd, hdok, _, _, hdl, _⟩ := cst_parse_spec strict d hdw (fun hs => (hord' hs).2)
+    have hsol : ∀ x ∈ attrs, solidT x := by
+      intro x hx
+      have := (List.all_eq_true.mp hall) x hx
+      simp only [attrSegOk, Bool.and_eq_true, Bool.not_eq_true', List.isEmpty_eq_false_iff] at this
+      refine ⟨this.1.1.1, ?_⟩
+      have hl := getLast?_ne_nl_of_no_nl _ this.1.1.2
+      simp [endsWithNL, hl]
+    refine ⟨.selOr ee attrs g1 (collectTrivia [] g1) de g2 (collectTrivia [] g2) [] [], by simp only [Cst.parse, hpe, hpd],
+      ⟨heok, hne, hsol, by simp [collectTrivia, collectGo], hdok, by simp [collectTrivia, collectGo], trivOk_nil, trivOk_nil⟩,
+      rfl, rfl, ?_, rfl⟩
+    simp only [Expr.lexOut, Cst.lexM, cm_nil, List.nil_append, List.append_nil, if_false, Bool.false_eq_true, ncm, List.map_nil]
+    rw [show e.lexM ++ attrLex attrs ++ Lex.tok ['o', 'r'] :: d.lexM = e.lexM ++ attrLex attrs ++ [Lex.tok ['o', 'r']] ++ d.lexM
+      from by simp]
+    simp only [proj_append, hel, hdl]
 theorem items_parse_spec (strict : Bool) : (its : Items) → ∀ (m : Mode) (cg : Text) (st : SeqSt) (pend : Bool),
     its.wf m cg = true → StOk st →
     (strict = true → its.orderOk m st.prev pend (!st.items.isEmpty) = true ∧ (pend = false → cm st.before = []) ∧
@@ -1229,6 +1261,13 @@ theorem cst_toks_lexM : (c : Cst) → toksL c.lexM = toksL c.lex
     simp only [toksL_append, toksL_ncm, toksL_lexGC, cst_toks_lexM h, cst_toks_lexM b]
   | .sel e c1 _ _ attrs => by
     simp only [Cst.lexM, Cst.lex, toksL_append, toksL_ncm, toksL_lexGC, cst_toks_lexM e]
+  | .selOr e c1 _ _ attrs c2 _ _ d => by
+    simp only [Cst.lexM, Cst.lex]
+    rw [show e.lexM ++ ncm c1 ++ attrLex attrs ++ ncm c2 ++ Lex.tok ['o', 'r'] :: d.lexM =
+        e.lexM ++ ncm c1 ++ attrLex attrs ++ ncm c2 ++ [Lex.tok ['o', 'r']] ++ d.lexM from by simp,
+      show e.lex ++ lexGC c1 ++ attrLex attrs ++ lexGC c2 ++ Lex.tok ['o', 'r'] :: d.lex =
+        e.lex ++ lexGC c1 ++ attrLex attrs ++ lexGC c2 ++ [Lex.tok ['o', 'r']] ++ d.lex from by simp]
+    simp only [toksL_append, toksL_ncm, toksL_lexGC, cst_toks_lexM e, cst_toks_lexM d]
 theorem items_toks_lexM : (its : Items) → toksL its.lexM = toksL its.lex
   | .nil => rfl
   | .cmt _ t rest => by
